@@ -100,7 +100,7 @@ Spec == Init /\ [][Next]_vars
 
 \* the abstract state plus the last operation (so that no operation kind is
 \* starved by another one reaching the same abstract state first)
-View == <<env, handles, IF hist = <<>> THEN <<>> ELSE hist[Len(hist)]>>
+View == <<env, handles, IF hist = <<>> THEN <<>> ELSE hist[Len(hist)], Len(hist)>>
 
 (* ---- properties of the design (hold by construction; checked as sanity) ---- *)
 \* Repeatability: re-applying a handle answers the same unless ITS environment changed
